@@ -25,6 +25,9 @@ for s in seeds:
         continue
     r = subprocess.run(f"git -C /repo apply {root}/{s}/patch.diff", shell=True, capture_output=True, text=True)
     if r.returncode != 0:
+        # a stale result must not survive: the seed has to be rebased onto the current tree (tools/seed_import.py)
+        for c in checks:
+            results.setdefault(s, {})[c] = {"exit": None, "violations": 0, "first": "PATCH DOES NOT APPLY: " + r.stderr[:160], "secs": 0}
         print(s, "PATCH DOES NOT APPLY", r.stderr[:200]); continue
     try:
         for c in checks:
